@@ -8,8 +8,9 @@ CLAIMS = {
              "possibly-raising element (whole-program exception-effect fixpoint, operator new included) in a swallowing catch(...), failure "
              "values in handlers and rejections, propagation of bool failure results, handle/result ownership (no overwrite of a live handle, "
              "delete-then-null, single release after the throwing call, delete as the allocated C++ type), parameter/result forwarding. "
-             "All wrappers, all paths. Does not decide numerical equality of results beyond forwarding, nor leak-freedom inside the C fitter "
-             "beyond rule TS-5C.",
+             "All wrappers, all paths. Also: no member function a wrapper forwards to dereferences a per-dimension array that some populating "
+             "operation leaves null without testing it (NL-1; a crash is not a non-zero return). Does not decide numerical equality of results "
+             "beyond forwarding, nor leak-freedom inside the C fitter beyond rule TS-5C.",
         note=TRUST + "Forwarding table (wrapper -> member, argument order) was derived from today's wrapper and is frozen in psv/rules/cw.py.",
         technique="custom AST/CFG lints: exception-effect summary + try containment, must-dataflow on handle state, forwarding table"),
     "C08": dict(
@@ -33,7 +34,9 @@ CLAIMS = {
              "the object is untouched, or protected by a handler/guard that calls clear() (failed operation leaves it unchanged or empty); "
              "owned-pointer arrays are initialised before the next raising element; populating functions are entered only with a table "
              "known empty; clear()/move construction/move assignment cover every member with matching counts and leave the source empty; "
-             "local new/malloc results are owned, returned or released on all exits. All CFG paths of all mutators. Does not decide "
+             "local new/malloc results are owned, returned or released on all exits; per-dimension arrays that a populating operation may leave null "
+             "are dereferenced only under a null test (invariant computed from the populating operations), and count arrays are allocated before "
+             "the arrays they size. All CFG paths of all mutators. Does not decide "
              "behaviour over operation sequences against an abstract model, nor fancy-pointer allocators.",
         note=TRUST + "Exceptions arise only where the effect summary says (throw, operator new, calls to raising functions); deallocate does not raise.",
         technique="typestate / exception-safety dataflow over clang CFGs of instantiated templates; field-coverage and count-agreement checks"),
@@ -41,7 +44,9 @@ CLAIMS = {
         text="Decides that each hazardous use of a fit argument (table derived by reading the C fitter) is dominated by a throwing guard whose "
              "condition equals the required relation in canonical (affine, integer) form, that per-dimension guards cover every dimension and "
              "precede the first member store, that a failing fit cannot leave a modified unprotected table, and that the C wrapper maps "
-             "throws to non-zero. Both container instantiations. Does not decide memory safety inside CHOLMOD/GLAM for valid arguments.",
+             "throws to non-zero. Both container instantiations. Inside the solver only one memory-safety clause is decided: cached CHOLMOD array "
+             "pointers are not read after a call that may move or free them, no field is read through a released object (SP-1/2). Does not "
+             "decide index arithmetic inside CHOLMOD/GLAM for valid arguments.",
         note=TRUST + "The hazard table (FIT_OBLIGATIONS) is the trusted specification of which relations are needed.",
         technique="required-guard dominance check with relational normal forms over the instantiated AST/CFG"),
     "C07": dict(
@@ -57,7 +62,7 @@ CLAIMS = {
              "attribute gathers use one (i, permutation[i]) index pair and are copied back to the member they came from, that the inverse map "
              "is built as inv[permutation[i]] = i and used only to scatter coefficients onto the new strides, that strides are recomputed from "
              "the permuted axes, that the argument is validated as a permutation before any member write, and that nothing raising follows the "
-             "first member write. Identities by declaration, not by name. Does not decide the index arithmetic over runtime shapes nor the "
+             "first member write; arrays a fitted or stacked table lacks are only touched under a null test. Identities by declaration, not by name. Does not decide the index arithmetic over runtime shapes nor the "
              "inverse round trip.",
         note=TRUST,
         technique="AST shape/agreement rules with alpha-normalised locals, field-coverage derived from clear(), typestate window"),
@@ -75,7 +80,8 @@ CLAIMS = {
              "entered only from the boundary centres in all 6 kernel instantiations; the SIMD lane cap dominating every lane store and core call "
              "in all 4 gradient bodies with NVECS*VECTOR_SIZE >= cap and VC <= NVECS for every reachable vector core; positive extents of all "
              "58 variable-length arrays; every one of the 216 knot/output/scratch index sites of the kernels (bsplvb per call site) stays inside the "
-             "padded arrays by interval arithmetic on affine forms; rejection of unordered (NaN) coordinates; the centre range rules of C04. "
+             "padded arrays by interval arithmetic on affine forms; rejection of unordered (NaN) coordinates; the centre range rules of C04; the "
+             "dispatch table (which core, compiled for which dimension count, reads the per-dimension arrays; no fall-through). "
              "Does not decide safety on tables that are not well-formed, nor termination.",
         note=TRUST + "Assumes well-formed tables (decided for loaded tables under C07) and centres produced by searchcenters.",
         technique="affine-form agreement of allocation/release sites, guard-shape and dominance rules on instantiated kernels, abstract evaluation of the range test for unordered input"),
@@ -109,7 +115,8 @@ CLAIMS = {
         text="Decides FITS round-trip structure as schema agreement: the writer's HDU/key sequence, name patterns, BITPIX and axis reversal "
              "(from the resolved cfitsio calls of write_fits_core) equal the documented layout and cover every lookup of read_fits_core, readOrder "
              "and estimateMemory; every transfer's datatype code matches the buffer element type and the other side's code; BITPIX matches the "
-             "element type; reads substitute no special values; the reserved-key filter and skip conditions are shared by all header passes. "
+             "element type; reads substitute no special values; the reserved-key filter and skip conditions are shared by all header passes; "
+             "write_key refuses what a card cannot hold (class boundary at 8 characters, 68-character value limit, no unsigned wrap). "
              "Does not decide bit-exactness of cfitsio conversions, decoding of the shipped reference files, or independent readers/writers.",
         note=TRUST + "cfitsio implements the FITS standard for the calls used; datatype code table (TFLOAT=42, ...) from fitsio.h.",
         technique="schema extraction from resolved library calls, writer/reader/type-code agreement tables"),
@@ -117,31 +124,36 @@ CLAIMS = {
         text="Decides 'coefficients are non-decreasing along the monotonic dimension' structurally: monotonic branch solves with the non-negative "
              "solver and copies only its result; every store into the solution vector is 0, a sign-guarded copy, or a clamped trial value; the "
              "prefix sum has the row-major affine forms of the evaluator's layout with j from 1 and nothing writes the output afterwards; the "
-             "lower-triangular change of basis is applied to basis and penalty of the same dimension. Does not decide the inactive-constraint "
+             "lower-triangular change of basis is applied to basis and penalty of the same dimension; the solver's factor bookkeeping reads no "
+             "moved or released CHOLMOD array (SP-1/2). Does not decide the inactive-constraint "
              "sentence, nor non-finite data.",
         note=TRUST + "B-splines with non-decreasing coefficients are non-decreasing (assumed theorem); IEEE addition is monotone.",
         technique="sign-provenance classification of stores, affine index-form agreement, call-wiring rules on the C fitter"),
     "C11": dict(
         text="Decides ONE clause only: the vector returned by the solver used by fitting (nnls_normal_block3) is component-wise non-negative "
-             "exactly, by sign provenance of every store into it (including through walk_descents/evaluate_descent). KKT optimality, agreement "
+             "exactly, by sign provenance of every store into it (including through walk_descents/evaluate_descent) - plus memory safety of the "
+             "factor-update path in one respect: no cached factor array is read after a call that may move it, no field through a released "
+             "object. KKT optimality, agreement "
              "with the unique minimiser, termination and the three other exported solvers are numerical and are not decided.",
         note=TRUST + "NaN data out of scope (a NaN trial value is not clamped).",
-        technique="sign-provenance classification of stores into the solution vector"),
+        technique="sign-provenance classification of stores into the solution vector; invalidation typestate for cached CHOLMOD arrays"),
     "C14": dict(
-        text="Decides two structural clauses: factorial (the normalisation helper) is total on convolve's arguments including 0 and is the "
+        text="Decides three structural clauses: factorial (the normalisation helper) is total on convolve's arguments including 0 and is the "
              "canonical product loop with a wide enough result; convolve updates exactly the convolved dimension's shape to order+n-1, "
              "nknots*n (counter in a perfect loop nest), nknots'-order'-1, recomputes strides, touches no other dimension, and cannot leave a "
-             "modified unprotected table. The convolution integral identity itself is numerical and is not decided.",
+             "modified unprotected table; the transfer matrix is filled for every (new, old) pair and applied to every slice by perfect "
+             "counting-loop nests with the blossom arguments in their roles. The convolution integral identity itself is numerical and is not decided.",
         note=TRUST + "Admitted range: order <= 5, kernels of <= 6 knots ((k+q-1)! <= 10!).",
         technique="unsigned-wrap/totality rule, symbolic post-state (affine forms) of the shape members"),
     "C19": dict(
         text="Decides that estimateMemory's size model has capacity (same element size, same affine count, same loop depth) for every allocation "
              "the reader makes through the allocator, with the auxiliary entries covered under the card-length lemma; that its convolution "
-             "adjustments equal the shape convolve produces; that convolve releases each member before allocating its replacement and uses the "
+             "adjustments equal the shape convolve produces and precede the terms that use them; that the primary header (dimension, shape, orders, "
+             "auxiliary-key count) is read while the primary HDU is current; that convolve releases each member before allocating its replacement and uses the "
              "allocator for members only; and that owned members only ever receive allocator memory. Does not decide allocator overhead or "
              "files that are not well-formed.",
         note=TRUST + "Card-length lemma: strlen(key)+1+strlen(value)+1 <= 82 for any card cfitsio returns.",
-        technique="allocation-site enumeration vs size-model terms (affine capacity matching), release-before-allocate dataflow"),
+        technique="allocation-site enumeration vs size-model terms (affine capacity matching), release-before-allocate dataflow, current-HDU typestate"),
     "C17": dict(
         text="Decides ONE structural clause: the wiring of grid evaluation. Row-major decomposition of the coefficient array with the table's "
              "strides into a sparse n-tuple of exactly the non-zero coefficients with the axis lengths as ranges; per dimension the table's own "
